@@ -7,6 +7,7 @@ import (
 	"fmt"
 	"os"
 	"path/filepath"
+	"strings"
 
 	kv "github.com/XiXi-2024/xixi-kv"
 	"verif/harness/core"
@@ -20,14 +21,14 @@ func init() { core.Register(c14{}) }
 func (c14) ID() string    { return "C14" }
 func (c14) Level() string { return "exploration" }
 func (c14) Rule() string {
-	return "cases = one generated op sequence (puts, deletes, gets, batches, syncs, merges, restarts, ListKeys/Fold/Stat, iterator walks with prefix/reverse/seek; in half of the cases the caller reuses one key buffer and one value buffer for every call and overwrites them after each return) executed in lock-step under a base configuration and 5 (quick) / 11 (thorough) others: all index types x ShardNum {1,2,3,16,1024,5000} x both I/O types with the other dimensions fixed, then DataFileSize and SyncStrategy varied; every call contributes one transcript line (op, result length + hash, error text; ListKeys and iterator walks verbatim; restart contributes the hash of the recovered mapping); transcripts must be identical to the base run's (first differing line = witness); for batch-free, merge-free sequences with equal DataFileSize the SHA-256 of every *.data file after the final Close must be identical too. Non-trivial: sequence with >=1 restart, >=1 iterator walk and >=3 distinct configurations compared; distinct = hash of (op list, configurations)"
+	return "cases = one generated op sequence (puts, deletes, gets, batches, syncs, merges, restarts, ListKeys/Fold/Stat, iterator walks with prefix/reverse/seek; wandering iterators that Seek in any direction, also behind the cursor, whose lines are compared only between configurations with the same ShardNum - the base run and two others, covering all three index types and both I/O types; in half of the cases the caller reuses one key buffer and one value buffer for every call and overwrites them after each return) executed in lock-step under a base configuration and 5 (quick) / 11 (thorough) others: all index types x ShardNum {1,2,3,16,1024,5000} x both I/O types with the other dimensions fixed, then DataFileSize and SyncStrategy varied; every call contributes one transcript line (op, result length + hash, error text; ListKeys and iterator walks verbatim; restart contributes the hash of the recovered mapping); transcripts must be identical to the base run's (first differing line = witness); for batch-free, merge-free sequences with equal DataFileSize the SHA-256 of every *.data file after the final Close must be identical too. Non-trivial: sequence with >=1 restart, >=1 iterator walk and >=3 distinct configurations compared; distinct = hash of (op list, configurations)"
 }
 func (c14) Assumptions() []string {
 	return []string{"Merge's own return value is not part of the transcript (whether the rewritten data needs more files than were merged depends on the file-size limit and on the engine's unordered file scan; the mapping after Merge is compared)",
 		"batch ids are time based and Merge rewrites files in Go map order, so file bytes are compared for batch-free and merge-free sequences only (every third case)"}
 }
 func (c14) Required() []string {
-	return []string{"transcript_lines_compared", "config_pairs_compared", "file_sets_compared", "iterator_walks", "restarts", "reuse_buffer_runs"}
+	return []string{"transcript_lines_compared", "config_pairs_compared", "file_sets_compared", "iterator_walks", "wandering_iterator_lines_compared", "restarts", "reuse_buffer_runs"}
 }
 
 type c14Case struct {
@@ -200,6 +201,36 @@ func runTranscript(dir string, cfg core.Config, ops []core.Op, reuse bool, res *
 				}
 				it.Close()
 				add("%s", line)
+			case "iterw":
+				// a wandering iterator: Seeks in ANY direction (also behind the cursor and on a
+				// partly consumed iterator), Nexts and Rewinds. What a backward Seek yields is
+				// history dependent and depends on how keys hash to shards, so this line is
+				// compared only between configurations with the same ShardNum ("@shards" tag)
+				it := db.NewIterator(kv.IteratorOptions{Reverse: op.VLen&1 != 0})
+				line := fmt.Sprintf("@shards %d iterw rev=%v:", i, op.VLen&1 != 0)
+				for _, so := range op.Sub {
+					switch so.Kind {
+					case "seek":
+						it.Seek(so.Key)
+						line += fmt.Sprintf(" S(%x)", so.Key)
+					case "rewind":
+						it.Rewind()
+						line += " R"
+					default:
+						for n := 0; n < so.VLen && it.Valid(); n++ {
+							it.Next()
+						}
+						line += fmt.Sprintf(" N%d", so.VLen)
+					}
+					if it.Valid() {
+						v, err := it.Value()
+						line += fmt.Sprintf("=%x:%s:%s", it.Key(), hashOf(v), errStr(err))
+					} else {
+						line += "=end"
+					}
+				}
+				it.Close()
+				add("%s", line)
 			}
 		}
 		add("final -> %s", mapping())
@@ -246,6 +277,23 @@ func (c14) Run(c core.Case, w *core.Worker) core.Result {
 				}
 				res.Add("iterator_walks_with_writes", 1)
 			}
+		} else if r.Chance(1, 12) {
+			op = core.Op{Kind: "iterw", VLen: r.Intn(2)}
+			for k := r.Range(3, 12); k > 0; k-- {
+				switch c := r.Intn(10); {
+				case c < 5:
+					tk := append([]byte{}, g.Key()...)
+					if r.Chance(1, 3) && len(tk) > 1 {
+						tk = tk[:r.Range(1, len(tk)-1)]
+					}
+					op.Sub = append(op.Sub, core.Op{Kind: "seek", Key: tk})
+				case c < 6:
+					op.Sub = append(op.Sub, core.Op{Kind: "rewind"})
+				default:
+					op.Sub = append(op.Sub, core.Op{Kind: "next", VLen: r.Range(1, 6)})
+				}
+			}
+			res.Add("wandering_iterators", 1)
 		} else {
 			op = g.Next()
 		}
@@ -271,6 +319,9 @@ func (c14) Run(c core.Case, w *core.Worker) core.Result {
 	// make sure every index type and both I/O types appear
 	cfgs[1].IndexType, cfgs[1].FileIO = 1, 1
 	cfgs[2].IndexType = 2
+	// ... with the base run's shard count, so that shard-dependent lines are compared
+	// across all three index types and both I/O types
+	cfgs[1].ShardNum, cfgs[2].ShardNum = base.ShardNum, base.ShardNum
 	var logl []string
 	for _, op := range ops {
 		logl = append(logl, op.String())
@@ -303,7 +354,13 @@ func (c14) Run(c core.Case, w *core.Worker) core.Result {
 		}
 		diffAt := -1
 		for i := 0; i < n; i++ {
+			if cfg.ShardNum != base.ShardNum && strings.HasPrefix(ref.lines[i], "@shards ") && strings.HasPrefix(t.lines[i], "@shards ") {
+				continue
+			}
 			res.Add("transcript_lines_compared", 1)
+			if strings.HasPrefix(ref.lines[i], "@shards ") {
+				res.Add("wandering_iterator_lines_compared", 1)
+			}
 			if t.lines[i] != ref.lines[i] {
 				diffAt = i
 				break
